@@ -36,6 +36,19 @@ TAGS_OK = ["env=prod", "dc=us", "host=web1", "a=1", "a-b=2", "k=v=w", "z=y~", "n
 TAGS_BAD = ["novalue", "=x", "k=", "k=~v", "k!=v", "", "a^b=c", "u=\xff\xfe"]
 
 
+def star_height(r):
+    t = r[0]
+    if t in ('star', 'plus', 'opt'):
+        return 1 + star_height(r[2])
+    if t == 'rep':
+        return 1 + star_height(r[4])
+    if t in ('cat', 'alt'):
+        return max(star_height(r[1]), star_height(r[2]))
+    if t == 'grp':
+        return star_height(r[2])
+    return 0
+
+
 def gen_pattern(rng, simple=False):
     r = rng.random()
     nm = ".".join(rng.choice(TOK) for _ in range(rng.randrange(1, 4)))
@@ -45,8 +58,13 @@ def gen_pattern(rng, simple=False):
         return ('cat', ('bol',), lit(nm + rng.choice(["", "."])))                    # ^foo\.
     if r < .5:
         return ('cat', lit(rng.choice(["." + rng.choice(TOK), rng.choice(TOK)])), ('eol',))   # \.count$
-    if r < .6:
+    if r < .55:
         return lit(";" + rng.choice(TAGS_OK[:5]))                                    # tag pattern
+    if r < .6:
+        # depends on the order of the tags: only the sorted presentation matches
+        t = sorted(rng.sample(TAGS_OK[:5], 2), key=lambda x: x.encode("latin-1"))
+        body = lit(";" + t[0] + ";" + t[1])
+        return body if rng.random() < .5 else ('cat', body, ('eol',))
     if r < .66:
         return ('cat', lit(";"), ('eol',))                                           # ;$  (matches no series Graphite knows)
     if r < .72:
@@ -55,7 +73,11 @@ def gen_pattern(rng, simple=False):
         return ('cat', ('bol',), ('cat', ('plus', True, ('cls', True, [(59, 59)])), ('eol',)))    # ^[^;]+$  untagged only
     if simple:
         return ('cat', lit(rng.choice(TOK)), ('eol',))
-    return renumber(gen_re(rng, 1))
+    for _ in range(20):
+        a = renumber(gen_re(rng, 1))
+        if star_height(a) <= 1:          # nested quantifiers make the backtracking engine exponential on 50-byte names
+            return a
+    return lit(rng.choice(TOK))
 
 
 def gen_rules(rng, simple=False):
@@ -136,6 +158,8 @@ def gen_line(rng, rules, canonical=False, simple=False):
     if rng.random() < .45:
         for _ in range(rng.randrange(1, 4)):
             tags.append(rng.choice(TAGS_OK) if rng.random() < .85 else rng.choice(TAGS_BAD))
+    elif rng.random() < .3:
+        tags = rng.sample(TAGS_OK[:5], rng.randrange(2, 4))       # the tags the order-sensitive rules talk about, in wire order
     nwt = ";".join([name] + tags)
     val = rng.choice(VALS) if rng.random() < .7 else repr(rng.uniform(-1e6, 1e6))
     ts = rng.choice(TSS) if rng.random() < .6 else str(rng.randrange(1, 2 ** 32))
@@ -176,6 +200,16 @@ def gen(rng, tier):
             l, p = gen_line(rng, rules, canonical=live, simple=simple)
             lines.append(l)
             probes.append(p)
+        if i % 6 == 2:
+            # the rule of highest priority looks at two tags in their sorted order; lines carry them in either order
+            t = sorted(rng.sample(TAGS_OK[:5], 2), key=lambda x: x.encode("latin-1"))
+            body = lit(";" + t[0] + ";" + t[1])
+            rules.insert(0, {"name": "tagorder", "ast": ('cat', body, ('eol',)) if rng.random() < .5 else body, "prio": 50,
+                             "ret": rng.choice(RETS_OK[:4])})
+            for order in (t, t[::-1], t[::-1]):
+                nm = ".".join(rng.choice(TOK) for _ in range(rng.randrange(1, 4)))
+                lines.append(("%s;%s;%s %s %d" % (nm, order[0], order[1], rng.choice(VALS[:6]), rng.randrange(1, 2 ** 31))).encode("latin-1").hex())
+                probes.append(("%s;%s;%s" % (nm, t[0], t[1])).encode("latin-1").hex())
         cases.append({"rules": rules, "schemas": render(rng, rules).hex(), "org": rng.choice([1, 1, 1, 7, 10010, 0]) if rng.random() < .9 else 1,
                       "lines": lines, "probes": probes, "patterns": [pr(tup(r["ast"])) for r in rules],
                       "live_pickle": i % 5 == 0, "live_gn": i % 4 == 1})
